@@ -270,6 +270,10 @@ def chunk_coord_objects(p, n):
     rng = p.rng
     for _ in range(n):
         lat, lon, zone, ell, prj = gen_case(rng)
+        # CoordGeo.tm always lets geo2grid choose the zone: in the property's domain that is a longitude inside one of
+        # the projection's zones (an ISG longitude far from New South Wales has no automatic zone)
+        if zone and not in_own_zone(prj, zone, lon):
+            continue
         try:
             exp = C.geo2grid(lat, lon, 0, ell, prj)
         except ValueError:
